@@ -455,7 +455,7 @@ fn opnd_from_json(v: &Value) -> Opnd {
         "sreg" => Opnd::Sreg(st(v["r"].as_str().unwrap())),
         "imm" => Opnd::Imm(v.get("raw").and_then(|x| x.as_i64()).unwrap_or_else(|| v["v"].as_i64().unwrap()) as i32),
         "offset" => Opnd::Offset { name: v["name"].as_str().unwrap().to_string(), off: v["v"].as_u64().unwrap_or(0) as u32 },
-        "mem" => Opnd::Mem { seg: st(v["seg"].as_str().unwrap()), base: st(v["base"].as_str().unwrap()), index: st(v["index"].as_str().unwrap()), disp: v["disp"].as_i64().unwrap() as i32, has_disp: true },
+        "mem" => Opnd::Mem { seg: st(v["seg"].as_str().unwrap()), base: st(v["base"].as_str().unwrap()), index: st(v["index"].as_str().unwrap()), disp: v["disp"].as_i64().unwrap() as i32, has_disp: !v.get("nd").and_then(|x| x.as_bool()).unwrap_or(false) },
         "label" => Opnd::Label { name: v.get("name").and_then(|x| x.as_str()).filter(|n| n.len() > 1).map(|n| n.to_string()).unwrap_or_else(|| format!("vl{}", v["off"].as_u64().unwrap())), off: v["off"].as_u64().unwrap() as u32 },
         k => panic!("harness: operand kind {}", k),
     }
